@@ -7,6 +7,7 @@ import (
 	"context"
 	"fmt"
 	"net"
+	"os"
 	"strconv"
 	"strings"
 	"sync"
@@ -104,11 +105,11 @@ type fundAndSign struct {
 func (fs *fundAndSign) FundV2Transaction(txn *types.V2Transaction, amount types.Currency) (types.ChainIndex, []int, error) {
 	return fs.w.FundV2Transaction(txn, amount, true)
 }
-func (fs *fundAndSign) ReleaseInputs(txns []types.V2Transaction)       { fs.w.ReleaseInputs(nil, txns) }
+func (fs *fundAndSign) ReleaseInputs(txns []types.V2Transaction)        { fs.w.ReleaseInputs(nil, txns) }
 func (fs *fundAndSign) SignV2Inputs(txn *types.V2Transaction, ts []int) { fs.w.SignV2Inputs(txn, ts) }
-func (fs *fundAndSign) SignHash(h types.Hash256) types.Signature       { return fs.pk.SignHash(h) }
-func (fs *fundAndSign) PublicKey() types.PublicKey                     { return fs.pk.PublicKey() }
-func (fs *fundAndSign) Address() types.Address                         { return fs.w.Address() }
+func (fs *fundAndSign) SignHash(h types.Hash256) types.Signature        { return fs.pk.SignHash(h) }
+func (fs *fundAndSign) PublicKey() types.PublicKey                      { return fs.pk.PublicKey() }
+func (fs *fundAndSign) Address() types.Address                          { return fs.w.Address() }
 
 func accountOf(j int) proto4.Account { return proto4.Account(accountKey(j).PublicKey()) }
 
@@ -148,7 +149,11 @@ func newWorldV2(t *testing.T, tr *vhlib.Trace, pr prices) *world {
 	if err != nil {
 		t.Fatal(err)
 	}
-	go siamux.Serve(l, rs, zap.NewNop())
+	slog := zap.NewNop()
+	if os.Getenv("VH_X_DEBUG") != "" {
+		slog, _ = zap.NewDevelopment()
+	}
+	go siamux.Serve(l, rs, slog)
 	v.transport, err = siamux.Dial(context.Background(), l.Addr().String(), w.hostKey.PublicKey())
 	if err != nil {
 		t.Fatal(err)
